@@ -262,7 +262,7 @@ class QueryPlanner:
             mdb_entities = [
                 item
                 for item in mdb_entities
-                if '.'.join(item.parts) not in cte_names
+                if not (isinstance(item, ast.Identifier) and '.'.join(str(part) for part in item.parts) in cte_names)
             ]
 
         return {
